@@ -1,10 +1,300 @@
-// Package c06: harness for property C06 (stub until built).
+// Package c06: LP fee and incentive accrual on the real x/liquiditypool.
+//
+// Every case is one real operation with, in addition to the per-step refinement data of
+// package amm (pre-state, operation, result, post-state):
+//   - the answer of Keeper.GetClaimableFees for every open position of the pool before and after,
+//   - the fee-account balance movement of the step split into receipts and payouts, and the two
+//     ghost totals (everything the pool's fee account ever received / ever paid out), which the
+//     harness threads from observed bank balances only,
+//   - for a successful Msg/ClaimRewards, the result of the same message executed again at once
+//     (in a discarded cache context).
 package c06
 
-import "fmt"
+import (
+	"fmt"
+	"math/big"
+	"strings"
 
-// Run generates n cases from seed, runs them on the real application and writes
-// cases_*.v and stats.json into outDir.
+	sdk "github.com/cosmos/cosmos-sdk/types"
+
+	lptypes "github.com/sunriselayer/sunrise/x/liquiditypool/types"
+
+	"verifharness/amm"
+	"verifharness/emit"
+)
+
+type ghost struct {
+	recv, claimed, last []*big.Int
+}
+
+func newGhost() *ghost {
+	g := &ghost{}
+	for i := 0; i < 4; i++ {
+		g.recv = append(g.recv, big.NewInt(0))
+		g.claimed = append(g.claimed, big.NewInt(0))
+		g.last = append(g.last, big.NewInt(0))
+	}
+	return g
+}
+
+func (g *ghost) clone() *ghost {
+	c := &ghost{}
+	for i := 0; i < 4; i++ {
+		c.recv = append(c.recv, new(big.Int).Set(g.recv[i]))
+		c.claimed = append(c.claimed, new(big.Int).Set(g.claimed[i]))
+		c.last = append(c.last, new(big.Int).Set(g.last[i]))
+	}
+	return c
+}
+
+// observe folds the movement of the fee-account balance since the last observation into the
+// ghost totals and returns (received, paid) of that movement.
+func (g *ghost) observe(now []*big.Int) (dr, dc []*big.Int) {
+	dr, dc = make([]*big.Int, 4), make([]*big.Int, 4)
+	for i := 0; i < 4; i++ {
+		d := new(big.Int).Sub(now[i], g.last[i])
+		dr[i], dc[i] = big.NewInt(0), big.NewInt(0)
+		if d.Sign() > 0 {
+			dr[i] = d
+			g.recv[i].Add(g.recv[i], d)
+		} else if d.Sign() < 0 {
+			dc[i] = new(big.Int).Neg(d)
+			g.claimed[i].Add(g.claimed[i], dc[i])
+		}
+		g.last[i] = new(big.Int).Set(now[i])
+	}
+	return
+}
+
+func zvec(v []*big.Int) string {
+	s := make([]string, len(v))
+	for i, x := range v {
+		s[i] = emit.Z(x)
+	}
+	return emit.List(s)
+}
+
+type run struct {
+	w     *amm.World
+	cf    *emit.CasesFile
+	st    *emit.Stats
+	gh    map[uint64]*ghost
+	cross map[uint64]int // position id -> initialised-tick crossings since its last update
+	drift map[uint64]int // pool id -> preferred swap direction (denom in)
+	step  int
+}
+
+// claimables asks the real keeper for the claimable fees of every open position of p.
+func (r *run) claimables(ctx sdk.Context, p amm.PoolInfo) string {
+	var out []string
+	for _, q := range r.w.PositionsSorted(ctx, p) {
+		res := func() (s string) {
+			defer func() {
+				if e := recover(); e != nil {
+					s = "Panic"
+				}
+			}()
+			coins, err := r.w.K.GetClaimableFees(ctx, q.Id)
+			if err != nil {
+				return "(Err 1)"
+			}
+			return "(Ok " + emit.List(p.CoinVec(coins)) + ")"
+		}()
+		out = append(out, fmt.Sprintf("(%d, %s)", q.Id, res))
+	}
+	return emit.List(out)
+}
+
+// doCase executes o on p in ctx with all C06 observations and emits the case.
+func (r *run) doCase(ctx sdk.Context, p amm.PoolInfo, o amm.Op, gh *ghost, mustOK bool) error {
+	feeAddr := lptypes.NewPoolFeesAddress(p.ID)
+	// anything that moved the fee account between two cases of this pool (block hooks) is history too
+	gh.observe(r.w.BalInts(ctx, p, feeAddr))
+	pre, _, _ := r.w.K.GetPool(ctx, p.ID)
+	clPre := r.claimables(ctx, p)
+	term, err := r.w.Step(ctx, p, o, mustOK)
+	dr, dc := gh.observe(r.w.BalInts(ctx, p, feeAddr))
+	clPost := r.claimables(ctx, p)
+	post, _, _ := r.w.K.GetPool(ctx, p.ID)
+	again := "None"
+	if o.Kind == "claim" && err == nil {
+		c, _ := ctx.CacheContext()
+		res2, _ := r.w.Exec(c, p, o)
+		again = "(Some " + res2 + ")"
+	}
+	r.cf.Add(fmt.Sprintf("{| k_amm := %s; k_cl_pre := %s; k_cl_post := %s; k_drecv := %s; k_dclaimed := %s; k_recv := %s; k_claimed := %s; k_again := %s |}",
+		term, clPre, clPost, zvec(dr), zvec(dc), zvec(gh.recv), zvec(gh.claimed), again))
+
+	info := o.Info()
+	info["pool"] = p.ID
+	info["pool_params"] = fmt.Sprintf("fee=%s ratio=%s offset=%s", p.Fee, p.Ratio, p.Offset)
+	info["tick_before"], info["tick_after"] = pre.CurrentTick, post.CurrentTick
+	info["fee_account_received"], info["fee_account_paid"] = zvec(dr), zvec(dc)
+	if err != nil {
+		info["err"] = err.Error()
+		r.st.Count(o.Kind + ":err")
+	} else {
+		r.st.Count(o.Kind + ":ok")
+		r.st.Sample(info)
+	}
+	r.st.Info(info)
+	r.st.Evaluations++
+
+	// bookkeeping for the non-trivial rule
+	if err == nil {
+		switch o.Kind {
+		case "swap":
+			if pre.CurrentTickLiquidity != post.CurrentTickLiquidity || crossedStored(r, ctx, p, pre.CurrentTick, post.CurrentTick) {
+				r.st.Count("swap:crossed-initialised-tick")
+				for _, q := range r.w.PositionsSorted(ctx, p) {
+					r.cross[q.Id]++
+				}
+			}
+			nz := false
+			for _, x := range dr {
+				nz = nz || x.Sign() > 0
+			}
+			if nz {
+				r.st.Count("swap:fee>0")
+			}
+		case "claim":
+			paid := false
+			for _, x := range dc {
+				paid = paid || x.Sign() > 0
+			}
+			for _, id := range o.Pids {
+				if paid && r.cross[id] > 0 {
+					r.st.Count("nontrivial:claim>0-after-crossing")
+					r.st.Nontriv(fmt.Sprintf("claim/%d/%d/%d/%s", p.ID, id, r.cross[id], zvec(dc)))
+				}
+				if ctxIsMain(o) {
+					r.cross[id] = 0
+				}
+			}
+			if paid {
+				r.st.Count("claim:paid>0")
+			}
+		case "decrease", "increase":
+			paid := false
+			for _, x := range dc {
+				paid = paid || x.Sign() > 0
+			}
+			if paid && r.cross[o.Pid] > 0 && ctxIsMain(o) {
+				r.st.Count("nontrivial:collect>0-after-crossing")
+				r.st.Nontriv(fmt.Sprintf("collect/%d/%d/%d/%s", p.ID, o.Pid, r.cross[o.Pid], zvec(dc)))
+			}
+			if ctxIsMain(o) {
+				r.cross[o.Pid] = 0
+			}
+		case "allocate":
+			if len(r.w.PositionsSorted(ctx, p)) > 1 {
+				r.st.Count("allocate:>=2-positions")
+			}
+		}
+	}
+	return err
+}
+
+// operations of the final claim-order branches run in discarded contexts: they must not reset the
+// main history's counters
+func ctxIsMain(o amm.Op) bool { return !strings.HasPrefix(o.Tag, "final/") }
+
+func crossedStored(r *run, ctx sdk.Context, p amm.PoolInfo, t0, t1 int64) bool {
+	if t0 == t1 {
+		return false
+	}
+	lo, hi := t0, t1
+	if lo > hi {
+		lo, hi = hi, lo
+	}
+	for _, t := range r.w.K.GetAllInitializedTicksForPool(ctx, p.ID) {
+		if lo < t.TickIndex && t.TickIndex <= hi {
+			return true
+		}
+	}
+	return false
+}
+
 func Run(seed int64, n int, outDir string) error {
-	return fmt.Errorf("c06: harness not built yet")
+	w := amm.NewWorld(seed)
+	defer w.H.Close()
+	// three pools with a non-zero fee and different tick grids (denoms 2,3 of each pool are the
+	// incentive-only denoms)
+	for _, ps := range [][5]string{
+		{"urise", "uusdc", "0.003", "1.0001", "0.5"},
+		{"uatom", "uosmo", "0.01", "1.001", "0"},
+		{"uusdc", "uatom", "0.05", "1.1", "0.25"},
+	} {
+		if _, err := w.CreatePool(ps[0], ps[1], ps[2], ps[3], ps[4]); err != nil {
+			return err
+		}
+	}
+	st := emit.NewStats("C06", seed, "a case is non-trivial when a claim (Msg/ClaimRewards, or the collect inside decrease/increase) paid out > 0 after at least one swap crossed an initialised tick since that position's last update; distinct by pool, position, number of crossings and coins paid")
+	cf := &emit.CasesFile{Import: "Amm.C06Check", Runner: "run", Type: "c06_case"}
+	r := &run{w: w, cf: cf, st: st, gh: map[uint64]*ghost{}, cross: map[uint64]int{}, drift: map[uint64]int{}}
+	for _, p := range w.Pools {
+		r.gh[p.ID] = newGhost()
+	}
+	ctx := w.H.Ctx()
+
+	// corpus: fixed regression histories first
+	if err := r.corpus(ctx); err != nil {
+		return err
+	}
+	ctx = w.H.Ctx()
+
+	for r.step = 0; r.step < n; r.step++ {
+		p := w.Pools[w.R.Intn(len(w.Pools))]
+		o := r.genOp(ctx, p)
+		r.doCase(ctx, p, o, r.gh[p.ID], false)
+		if w.R.Chance(1, 30) {
+			if _, err := w.H.NextBlock(1e9); err != nil {
+				return fmt.Errorf("block failed: %w", err)
+			}
+			ctx = w.H.Ctx()
+		}
+	}
+
+	// end of history: every position claims, in two different orders (separate discarded branches),
+	// then everything is withdrawn in the second branch
+	for _, p := range w.Pools {
+		poss := w.PositionsSorted(ctx, p)
+		if len(poss) == 0 {
+			continue
+		}
+		if len(poss) > 4 { // keep the quick tier small: the four oldest positions
+			poss = poss[:4]
+		}
+		for order := 0; order < 2; order++ {
+			c, _ := ctx.CacheContext()
+			gh := r.gh[p.ID].clone()
+			ids := make([]lptypes.Position, len(poss))
+			copy(ids, poss)
+			if order == 1 {
+				for i, j := 0, len(ids)-1; i < j; i, j = i+1, j-1 {
+					ids[i], ids[j] = ids[j], ids[i]
+				}
+			} else {
+				for i := len(ids) - 1; i > 0; i-- {
+					j := w.R.Intn(i + 1)
+					ids[i], ids[j] = ids[j], ids[i]
+				}
+			}
+			for _, q := range ids {
+				o := amm.Op{Kind: "claim", Sender: w.UserIndex(q.Address), Pids: []uint64{q.Id}, Tag: fmt.Sprintf("final/claim-order%d", order)}
+				r.doCase(c, p, o, gh, true)
+			}
+			if order == 1 {
+				for _, q := range ids {
+					o := amm.Op{Kind: "decrease", Sender: w.UserIndex(q.Address), Pid: q.Id, Liq: amm.Raw(q.Liquidity), Tag: "final/drain"}
+					r.doCase(c, p, o, gh, true)
+				}
+			}
+			st.Count("final-claim-order")
+		}
+	}
+	if _, err := cf.Write(outDir, "cases", 12); err != nil {
+		return err
+	}
+	return st.Write(outDir)
 }
